@@ -100,17 +100,25 @@ type tr struct {
 
 	implicit map[string]map[string]string // function key -> implicit parameter name -> its Coq type
 	forced   map[string][]string          // function key -> ambient values that are parameters even when not read
+	consts   map[string]string            // package-level constants of the file with a literal value: name -> Coq term
+	constTy  map[string]*typ
+	foreign  map[string]bool      // structs of other packages declared on the command line (pkg_T)
+	dyn      map[string]bool      // function key -> its `error` values are classes of dynamic types (Name!dyn)
+	globals  map[string]bool      // package-level string variables named on the command line ($name): parameters
+	opaque   map[string]*opaqueFn // functions named on the command line (?name): parameters of function type
 
 	// per function
-	key      string
-	sites    map[token.Pos]int // map-range loops of the function, numbered in order of first translation
-	params   map[string]bool   // parameters (a map parameter is never written: the caller would see it)
-	namedRes []string          // named results
-	env      map[string]*typ
-	result   *typ
-	loops    []loopCtx         // innermost last
-	idxAlias map[string]string // "xs[i]" -> element variable, inside a rewritten index loop
-	idxVar   map[string]bool   // index variables of rewritten index loops (no other use allowed)
+	key       string
+	sites     map[token.Pos]int // map-range loops of the function, numbered in order of first translation
+	params    map[string]bool   // parameters (a map parameter is never written: the caller would see it)
+	namedRes  []string          // named results
+	env       map[string]*typ
+	ren       map[string]string // Go name -> Coq name of the declaration in scope
+	declCount map[string]int    // how often a name has been declared in this function
+	result    *typ
+	loops     []loopCtx         // innermost last
+	idxAlias  map[string]string // "xs[i]" -> element variable, inside a rewritten index loop
+	idxVar    map[string]bool   // index variables of rewritten index loops (no other use allowed)
 }
 
 // a loop being translated: what one round yields when it ends normally (`continue` or falling off the body),
@@ -135,6 +143,16 @@ func (t *tr) coqType(ty *typ) string {
 		return "(gomap " + t.coqType(ty.elem) + ")"
 	case "error":
 		return "(option string)"
+	case "dynerr":
+		return "dynerr"
+	case "exitStatuser": // a value asserted to interface{ ExitStatus() int }: stands for its ExitStatus()
+		return "Z"
+	case "exitError": // a *exec.ExitError: (Exited(), Sys())
+		return "(bool * option Z)%type"
+	case "sysval": // what (*exec.ExitError).Sys() returns: Some c when it has ExitStatus() int = c
+		return "(option Z)"
+	case "digest":
+		return "string" // a hash value, as its %x rendering (the only use the subset allows)
 	case "tuple":
 		var s []string
 		for _, e := range ty.elems {
@@ -173,6 +191,9 @@ func (t *tr) typeOf(e ast.Expr) *typ {
 		case "bool":
 			return tBool
 		case "error":
+			if t.dyn[t.key] {
+				return &typ{kind: "dynerr"}
+			}
 			return tError
 		}
 		if _, ok := t.structs[v.Name]; ok {
@@ -183,6 +204,14 @@ func (t *tr) typeOf(e ast.Expr) *typ {
 			switch u.(type) {
 			case *ast.ArrayType, *ast.MapType:
 				return t.typeOf(u)
+			}
+		}
+	case *ast.SelectorExpr: // a struct of another package whose (string) fields were named on the command line: %pkg.T=F1:F2
+		if pk, ok := v.X.(*ast.Ident); ok {
+			name := pk.Name + "_" + v.Sel.Name
+			if _, ok := t.structs[name]; ok && t.foreign[name] {
+				t.mention(name)
+				return &typ{kind: "struct", name: name}
 			}
 		}
 	case *ast.StarExpr:
@@ -249,7 +278,49 @@ func coqString(s string) string {
 	return "(bs [" + strings.Join(n, ";") + "])"
 }
 
-func v(name string) string { return "v_" + name }
+// the Coq name of a Go variable: v_<name>, with a numeric suffix for the second, third ... declaration of the
+// same name in one function (Go scopes by block, the translation by `let`: distinct Coq names keep them apart)
+func (t *tr) v(name string) string {
+	if c, ok := t.ren[name]; ok {
+		return c
+	}
+	return "v_" + name
+}
+
+func (t *tr) declare(name string, ty *typ) {
+	env := make(map[string]*typ, len(t.env)+1)
+	for k, x := range t.env {
+		env[k] = x
+	}
+	ren := make(map[string]string, len(t.ren)+1)
+	for k, x := range t.ren {
+		ren[k] = x
+	}
+	t.declCount[name]++
+	ren[name] = "v_" + name
+	if n := t.declCount[name]; n > 1 {
+		ren[name] = fmt.Sprintf("v_%s_%d", name, n)
+	}
+	env[name] = ty
+	t.env, t.ren = env, ren
+}
+
+// the variables in scope (maps are never updated in place: a snapshot is the pair of references)
+type scope struct {
+	env map[string]*typ
+	ren map[string]string
+}
+
+func (t *tr) snapshot() scope { return scope{t.env, t.ren} }
+func (t *tr) restore(s scope) { t.env, t.ren = s.env, s.ren }
+
+// k run in the scope s: what follows a block does not see the block's declarations
+func (t *tr) inScope(s scope, k func() string) func() string {
+	return func() string {
+		t.restore(s)
+		return k()
+	}
+}
 
 // ---------------------------------------------------------------- expressions
 // exprWant translates e where a value of type want is expected: this is where an untyped nil gets its type
@@ -273,6 +344,12 @@ func isNil(e ast.Expr) bool {
 
 // values of the process that a function reads become parameters of its translation
 var ambient = map[string]*typ{"runtime.GOOS": tString, "runtime.GOARCH": tString}
+
+// a function that is not translated but taken as a parameter (it does I/O, or lives in another package)
+type opaqueFn struct {
+	params []*typ
+	result *typ
+}
 
 // Name!os_Environ!runtime_GOOS on the command line keeps these as parameters of Name even if it stops reading them
 // (the statement about the function then still type-checks and says that it does not depend on them)
@@ -311,9 +388,15 @@ func (t *tr) expr(e ast.Expr) (string, *typ) {
 		}
 		ty, ok := t.env[x.Name]
 		if !ok {
-			die("unsupported identifier %s (not a parameter or local variable)", x.Name)
+			if c, isConst := t.consts[x.Name]; isConst {
+				return c, t.constTy[x.Name]
+			}
+			if t.globals[x.Name] {
+				return t.addImplicit("pkg_"+x.Name, "string"), tString
+			}
+			die("unsupported identifier %s (not a parameter, local variable or literal constant of the file)", x.Name)
 		}
-		return v(x.Name), ty
+		return t.v(x.Name), ty
 	case *ast.BasicLit:
 		switch x.Kind {
 		case token.INT:
@@ -383,6 +466,24 @@ func (t *tr) expr(e ast.Expr) (string, *typ) {
 			die("unsupported index expression %s", t.text(e))
 		}
 		return "(index_ " + t.zero(ty.elem) + " " + c + " " + i + ")", ty.elem
+	case *ast.SliceExpr:
+		c, ty := t.expr(x.X)
+		if ty.kind != "list" || x.Slice3 || (x.Low != nil && x.High != nil) || (x.Low == nil && x.High == nil) {
+			die("unsupported slice expression %s (only xs[lo:] and xs[:hi] of a slice)", t.text(e))
+		}
+		// Go panics when the bound is outside 0..len(xs); the translation is total (skipn / firstn)
+		if x.Low != nil {
+			lo, lty := t.expr(x.Low)
+			if lty.kind != "int" {
+				die("unsupported slice bound %s", t.text(x.Low))
+			}
+			return "(skipn (Z.to_nat " + lo + ") " + c + ")", ty
+		}
+		hi, hty := t.expr(x.High)
+		if hty.kind != "int" {
+			die("unsupported slice bound %s", t.text(x.High))
+		}
+		return "(firstn (Z.to_nat " + hi + ") " + c + ")", ty
 	case *ast.CompositeLit:
 		if x.Type == nil {
 			die("composite literal without a type")
@@ -449,6 +550,12 @@ func (t *tr) binary(x *ast.BinaryExpr) (string, *typ) {
 				other = x.Y
 			}
 			c, ty := t.expr(other)
+			if ty.kind == "dynerr" {
+				if x.Op == token.EQL {
+					return "(dyn_is_nil " + c + ")", tBool
+				}
+				return "(negb (dyn_is_nil " + c + "))", tBool
+			}
 			if ty.kind != "error" {
 				die("comparison of a %v with nil (a nil slice or map is not told from an empty one): %s", ty, t.text(x))
 			}
@@ -612,6 +719,9 @@ func (t *tr) call(x *ast.CallExpr) (string, *typ) {
 			}
 			return t.zero(ty), ty
 		}
+		if o, ok := t.opaque[f.Name]; ok {
+			return t.callOpaque(f.Name, o, x)
+		}
 		if fd, ok := t.funcs[f.Name]; ok {
 			return t.callLocal(f.Name, fd, "", nil, x)
 		}
@@ -620,11 +730,24 @@ func (t *tr) call(x *ast.CallExpr) (string, *typ) {
 		if pk, ok := f.X.(*ast.Ident); ok {
 			if _, shadow := t.env[pk.Name]; !shadow {
 				if path, ok := t.imports[pk.Name]; ok {
+					if o, ok := t.opaque[pk.Name+"."+f.Sel.Name]; ok {
+						return t.callOpaque(pk.Name+"."+f.Sel.Name, o, x)
+					}
 					return t.libcall(path, f.Sel.Name, x)
 				}
 			}
 		}
 		c, ty := t.expr(f.X)
+		if len(x.Args) == 0 && !x.Ellipsis.IsValid() {
+			switch ty.kind + "." + f.Sel.Name {
+			case "exitStatuser.ExitStatus":
+				return c, tInt
+			case "exitError.Exited":
+				return "(fst " + c + ")", tBool
+			case "exitError.Sys":
+				return "(snd " + c + ")", &typ{kind: "sysval"}
+			}
+		}
 		if ty.kind == "struct" {
 			if fd, ok := t.funcs[ty.name+"."+f.Sel.Name]; ok {
 				return t.callLocal(ty.name+"."+f.Sel.Name, fd, c, ty, x)
@@ -652,6 +775,9 @@ func (t *tr) libcall(path, name string, x *ast.CallExpr) (string, *typ) {
 		a := t.args(x, tString, tString, tInt)
 		t.nonEmptyLit(x, 1)
 		return "(strings_SplitN " + a[0] + " " + a[1] + " " + a[2] + ")", tList(tString)
+	case "strings.EqualFold":
+		a := t.args(x, tString, tString)
+		return "(strings_EqualFold " + a[0] + " " + a[1] + ")", tBool // ASCII reading (Base/GoLib.v)
 	case "strings.ToLower":
 		a := t.args(x, tString)
 		return "(strings_ToLower " + a[0] + ")", tString // ASCII reading of ToLower (Base/GoLib.v says where it coincides with Go's)
@@ -675,6 +801,22 @@ func (t *tr) libcall(path, name string, x *ast.CallExpr) (string, *typ) {
 			die("strings.Replace is supported only with a negative literal count (replace all): %s", t.text(x))
 		}
 		return "(strings_ReplaceAll " + a[0] + " " + a[1] + " " + a[2] + ")", tString
+	case "crypto/sha1.Sum":
+		// sha1.Sum([]byte(s)): the hash function is a parameter (string -> its %x rendering); the value may only be
+		// printed with %x
+		if len(x.Args) == 1 {
+			if conv, ok := x.Args[0].(*ast.CallExpr); ok && len(conv.Args) == 1 {
+				if at, ok := conv.Fun.(*ast.ArrayType); ok && at.Len == nil {
+					if id, ok := at.Elt.(*ast.Ident); ok && id.Name == "byte" {
+						c, ty := t.expr(conv.Args[0])
+						if ty.kind == "string" {
+							return "(" + t.addImplicit("hash_sha1", "(string -> string)") + " " + c + ")", &typ{kind: "digest"}
+						}
+					}
+				}
+			}
+		}
+		die("sha1.Sum is supported only as sha1.Sum([]byte(<string>)): %s", t.text(x))
 	case "os.Environ":
 		t.args(x)
 		return t.addImplicit("os_Environ", t.coqType(tList(tString))), tList(tString) // read once per call: a parameter of the translation
@@ -735,6 +877,17 @@ func (t *tr) format(x *ast.CallExpr) string {
 		switch format[i] {
 		case '%':
 			cur += "%"
+		case 'x':
+			if n >= len(x.Args) {
+				die("format %s has more verbs than arguments", lit.Value)
+			}
+			c, ty := t.expr(x.Args[n])
+			if ty.kind != "digest" {
+				die("%%x argument %s has type %v (only hash values are translated)", t.text(x.Args[n]), ty)
+			}
+			n++
+			flush()
+			parts = append(parts, c)
 		case 's', 'v':
 			if n >= len(x.Args) {
 				die("format %s has more verbs than arguments", lit.Value)
@@ -771,10 +924,10 @@ func (t *tr) callLocal(key string, fd *ast.FuncDecl, recv string, recvTy *typ, x
 	}
 	// translate the callee in its own context
 	env, result, loops, ia, iv := t.env, t.result, t.loops, t.idxAlias, t.idxVar
-	k, sites, params, named := t.key, t.sites, t.params, t.namedRes
+	k, sites, params, named, ren, dc := t.key, t.sites, t.params, t.namedRes, t.ren, t.declCount
 	t.function(key)
 	t.env, t.result, t.loops, t.idxAlias, t.idxVar = env, result, loops, ia, iv
-	t.key, t.sites, t.params, t.namedRes = k, sites, params, named
+	t.key, t.sites, t.params, t.namedRes, t.ren, t.declCount = k, sites, params, named, ren, dc
 	ptys, res := t.signature(fd)
 	if fd.Recv != nil {
 		ptys = ptys[1:]
@@ -791,6 +944,16 @@ func (t *tr) callLocal(key string, fd *ast.FuncDecl, recv string, recvTy *typ, x
 	}
 	a = append(imp, a...)
 	return "(" + strings.TrimSpace(name+" "+strings.Join(a, " ")) + ")", res
+}
+
+func (t *tr) callOpaque(name string, o *opaqueFn, x *ast.CallExpr) (string, *typ) {
+	a := t.args(x, o.params...)
+	var ptys []string
+	for _, p := range o.params {
+		ptys = append(ptys, t.coqType(p))
+	}
+	fn := t.addImplicit("fn_"+strings.Replace(name, ".", "_", -1), "("+strings.Join(append(ptys, t.coqType(o.result)), " -> ")+")")
+	return "(" + fn + " " + strings.Join(a, " ") + ")", o.result
 }
 
 func (t *tr) defName(key string) string {
@@ -875,6 +1038,8 @@ func (t *tr) function(key string) {
 	t.params = map[string]bool{}
 	t.namedRes = nil
 	t.env = map[string]*typ{}
+	t.ren = map[string]string{}
+	t.declCount = map[string]int{}
 	t.loops = nil
 	t.idxAlias = map[string]string{}
 	t.idxVar = map[string]bool{}
@@ -887,10 +1052,10 @@ func (t *tr) function(key string) {
 		if name == "" || name == "_" {
 			name = fmt.Sprintf("_arg%d", i)
 		} else {
-			t.env[name] = ty
+			t.declare(name, ty)
 			t.params[name] = true
 		}
-		params = append(params, "("+v(name)+" : "+t.coqType(ty)+")")
+		params = append(params, "("+t.v(name)+" : "+t.coqType(ty)+")")
 		i++
 	}
 	if fd.Recv != nil {
@@ -917,9 +1082,9 @@ func (t *tr) function(key string) {
 				die("%s: blank named result", key)
 			}
 			ty := t.resultTypes()[ri]
-			t.env[n.Name] = ty
+			t.declare(n.Name, ty)
 			t.namedRes = append(t.namedRes, n.Name)
-			pre += "let " + v(n.Name) + " := " + t.zero(ty) + " in\n  "
+			pre += "let " + t.v(n.Name) + " := " + t.zero(ty) + " in\n  "
 			ri++
 		}
 	}
@@ -947,10 +1112,7 @@ func (t *tr) checkDeclaredOnce(fd *ast.FuncDecl) {
 		if id == nil || id.Name == "_" {
 			return
 		}
-		if seen[id.Name] {
-			die("%s: the name %s is declared more than once (shadowing is not supported)", fd.Name.Name, id.Name)
-		}
-		seen[id.Name] = true
+		seen[id.Name] = true // (re-declarations get Coq names of their own: declare)
 	}
 	if fd.Recv != nil {
 		for _, n := range fd.Recv.List[0].Names {
@@ -1031,6 +1193,27 @@ func declaredIn(l []ast.Stmt) map[string]bool {
 	return out
 }
 
+// sort.Strings(x) with x an identifier -> "x"
+func sortStringsArg(s *ast.ExprStmt, imports map[string]string) string {
+	call, ok := s.X.(*ast.CallExpr)
+	if !ok || len(call.Args) != 1 {
+		return ""
+	}
+	sel, ok := call.Fun.(*ast.SelectorExpr)
+	if !ok || sel.Sel.Name != "Strings" {
+		return ""
+	}
+	pk, ok := sel.X.(*ast.Ident)
+	if !ok || imports[pk.Name] != "sort" {
+		return ""
+	}
+	id, ok := call.Args[0].(*ast.Ident)
+	if !ok {
+		return ""
+	}
+	return id.Name
+}
+
 // variables of the enclosing scope that a statement list assigns, sorted by name
 func (t *tr) assignedOuter(l []ast.Stmt) []string {
 	inner := declaredIn(l)
@@ -1044,14 +1227,23 @@ func (t *tr) assignedOuter(l []ast.Stmt) []string {
 						if ix, ok := x.(*ast.IndexExpr); ok { // m[k] = v
 							x = ix.X
 						}
-						if id, ok := x.(*ast.Ident); ok && !inner[id.Name] && id.Name != "_" {
-							set[id.Name] = true
+						if id, ok := x.(*ast.Ident); ok && id.Name != "_" {
+							if _, outer := t.env[id.Name]; outer && inner[id.Name] {
+								die("the name %s is both re-declared and assigned in one block (not modelled)", id.Name)
+							}
+							if !inner[id.Name] {
+								set[id.Name] = true
+							}
 						}
 					}
 				}
 			case *ast.IncDecStmt:
 				if id, ok := d.X.(*ast.Ident); ok && !inner[id.Name] {
 					set[id.Name] = true
+				}
+			case *ast.ExprStmt:
+				if id := sortStringsArg(d, t.imports); id != "" && !inner[id] {
+					set[id] = true
 				}
 			}
 			return true
@@ -1082,10 +1274,10 @@ func jumps(l []ast.Stmt) bool {
 	return found
 }
 
-func tuple(names []string) string {
+func (t *tr) tuple(names []string) string {
 	var vs []string
 	for _, n := range names {
-		vs = append(vs, v(n))
+		vs = append(vs, t.v(n))
 	}
 	if len(vs) == 1 {
 		return vs[0]
@@ -1093,11 +1285,11 @@ func tuple(names []string) string {
 	return "(" + strings.Join(vs, ", ") + ")"
 }
 
-func letTuple(names []string) string {
+func (t *tr) letTuple(names []string) string {
 	if len(names) == 1 {
-		return "let " + v(names[0]) + " := "
+		return "let " + t.v(names[0]) + " := "
 	}
-	return "let '" + tuple(names) + " := "
+	return "let '" + t.tuple(names) + " := "
 }
 
 // block translates a statement list; k() is what follows when control falls off its end.
@@ -1110,7 +1302,7 @@ func (t *tr) block(l []ast.Stmt, k func() string) string {
 	case *ast.EmptyStmt:
 		return rest()
 	case *ast.BlockStmt:
-		return t.block(append(append([]ast.Stmt{}, s.List...), l[1:]...), k)
+		return t.block(s.List, t.inScope(t.snapshot(), rest))
 	case *ast.ReturnStmt:
 		return t.returned(t.returnValue(s))
 	case *ast.BranchStmt:
@@ -1147,13 +1339,22 @@ func (t *tr) block(l []ast.Stmt, k func() string) string {
 				if n.Name == "_" {
 					continue
 				}
-				t.env[n.Name] = ty
-				out += "let " + v(n.Name) + " := " + c + " in\n  "
+				t.declare(n.Name, ty)
+				out += "let " + t.v(n.Name) + " := " + c + " in\n  "
 			}
 		}
 		return out + rest()
 	case *ast.AssignStmt:
 		return t.assign(s) + rest()
+	case *ast.ExprStmt:
+		if id := sortStringsArg(s, t.imports); id != "" {
+			ty, ok := t.env[id]
+			if !ok || !ty.eq(tList(tString)) || t.params[id] {
+				die("sort.Strings is supported only on a local []string variable (a parameter's caller would see the sorting): %s", t.text(s))
+			}
+			return "let " + t.v(id) + " := (sort_Strings " + t.v(id) + ") in\n  " + rest()
+		}
+		die("unsupported statement %s", t.text(s))
 	case *ast.IncDecStmt:
 		id, ok := s.X.(*ast.Ident)
 		if !ok || t.env[id.Name] == nil || t.env[id.Name].kind != "int" || t.idxVar[id.Name] {
@@ -1163,12 +1364,12 @@ func (t *tr) block(l []ast.Stmt, k func() string) string {
 		if s.Tok == token.DEC {
 			op = "Z.sub"
 		}
-		return "let " + v(id.Name) + " := (" + op + " " + v(id.Name) + " 1%Z) in\n  " + rest()
+		return "let " + t.v(id.Name) + " := (" + op + " " + t.v(id.Name) + " 1%Z) in\n  " + rest()
 	case *ast.IfStmt:
-		if s.Init != nil {
+		if s.Init != nil { // the variables of the init statement are in scope in the if statement only
 			cp := *s
 			cp.Init = nil
-			return t.block(append([]ast.Stmt{s.Init, &cp}, l[1:]...), k)
+			return t.block([]ast.Stmt{s.Init, &cp}, t.inScope(t.snapshot(), rest))
 		}
 		c, ty := t.expr(s.Cond)
 		if ty.kind != "bool" {
@@ -1184,28 +1385,36 @@ func (t *tr) block(l []ast.Stmt, k func() string) string {
 		default:
 			die("unsupported else %T", s.Else)
 		}
+		here := t.snapshot()
 		if jumps(s.Body.List) || jumps(els) {
 			// a branch may leave: each branch is followed by the rest of the enclosing list
-			a := t.block(s.Body.List, rest)
-			b := t.block(els, rest)
+			a := t.block(s.Body.List, t.inScope(here, rest))
+			t.restore(here)
+			b := t.block(els, t.inScope(here, rest))
+			t.restore(here)
 			return "(if " + c + " then " + a + " else " + b + ")"
 		}
 		mods := t.assignedOuter(append(append([]ast.Stmt{}, s.Body.List...), els...))
 		if len(mods) == 0 {
 			// no assignment to an outer variable and no jump: the statement has no effect (everything in the subset is pure)
 			t.block(s.Body.List, func() string { return "" }) // still must be inside the subset
+			t.restore(here)
 			t.block(els, func() string { return "" })
+			t.restore(here)
 			return rest()
 		}
-		end := func() string { return tuple(mods) }
+		end := t.inScope(here, func() string { return t.tuple(mods) })
 		a := t.block(s.Body.List, end)
+		t.restore(here)
 		b := t.block(els, end)
-		return letTuple(mods) + "(if " + c + " then " + a + " else " + b + ") in\n  " + rest()
+		t.restore(here)
+		return t.letTuple(mods) + "(if " + c + " then " + a + " else " + b + ") in\n  " + rest()
 	case *ast.RangeStmt:
 		if s.Tok != token.DEFINE && (s.Value != nil || s.Key != nil) {
 			die("range assigning to existing variables")
 		}
 		xs, ty := t.expr(s.X)
+		rest := t.inScope(t.snapshot(), rest) // the loop variables and the body's declarations end with the loop
 		loopVar := func(e ast.Expr, ty *typ) string {
 			if e == nil {
 				return "_"
@@ -1222,8 +1431,8 @@ func (t *tr) block(l []ast.Stmt, k func() string) string {
 					die("the range variable %s is assigned in the loop body", n)
 				}
 			}
-			t.env[id.Name] = ty
-			return v(id.Name)
+			t.declare(id.Name, ty)
+			return t.v(id.Name)
 		}
 		switch ty.kind {
 		case "list":
@@ -1267,10 +1476,11 @@ func (t *tr) block(l []ast.Stmt, k func() string) string {
 			}
 		}
 		key := xsName + "[" + iName + "]"
-		elem := v(iName + "_elem")
+		elem := t.v(iName + "_elem")
 		t.idxAlias[key] = elem
 		t.idxVar[iName] = true
-		return t.loop(s.Body.List, v(xsName), elem, func() string {
+		rest := t.inScope(t.snapshot(), rest)
+		return t.loop(s.Body.List, t.v(xsName), elem, func() string {
 			delete(t.idxAlias, key) // (i is not in scope after the loop)
 			delete(t.idxVar, iName)
 			return rest()
@@ -1322,7 +1532,7 @@ func indexLoop(s *ast.ForStmt) (string, string) {
 func (t *tr) loop(body []ast.Stmt, xs, elem string, rest func() string) string {
 	var state []string
 	for _, n := range t.assignedOuter(body) {
-		state = append(state, v(n))
+		state = append(state, t.v(n))
 	}
 	hasRet := containsReturn(body)
 	if len(state) == 0 && !hasRet {
@@ -1404,7 +1614,7 @@ func (t *tr) returnValue(s *ast.ReturnStmt) string {
 		if len(t.namedRes) != len(want) {
 			die("return without values in a function without named results")
 		}
-		return tuple(t.namedRes)
+		return t.tuple(t.namedRes)
 	}
 	if len(s.Results) == 1 && len(want) > 1 { // return f(x) with a multi-valued f
 		c, ty := t.expr(s.Results[0])
@@ -1430,6 +1640,39 @@ func (t *tr) returnValue(s *ast.ReturnStmt) string {
 	return pat(cs)
 }
 
+// T is a named interface of the file with the single method ExitStatus() int
+func (t *tr) isExitStatusInterface(e ast.Expr) bool {
+	id, ok := e.(*ast.Ident)
+	if !ok {
+		return false
+	}
+	it, ok := t.named[id.Name].(*ast.InterfaceType)
+	if !ok || it.Methods == nil || len(it.Methods.List) != 1 {
+		return false
+	}
+	m := it.Methods.List[0]
+	ft, ok := m.Type.(*ast.FuncType)
+	if !ok || len(m.Names) != 1 || m.Names[0].Name != "ExitStatus" || len(ft.Params.List) != 0 || ft.Results == nil || len(ft.Results.List) != 1 {
+		return false
+	}
+	r, ok := ft.Results.List[0].Type.(*ast.Ident)
+	return ok && r.Name == "int"
+}
+
+// T is *exec.ExitError of os/exec
+func (t *tr) isExecExitError(e ast.Expr) bool {
+	st, ok := e.(*ast.StarExpr)
+	if !ok {
+		return false
+	}
+	sel, ok := st.X.(*ast.SelectorExpr)
+	if !ok || sel.Sel.Name != "ExitError" {
+		return false
+	}
+	pk, ok := sel.X.(*ast.Ident)
+	return ok && t.imports[pk.Name] == "os/exec"
+}
+
 // an assignment statement as a `let ... in` prefix
 func (t *tr) assign(s *ast.AssignStmt) string {
 	bind := func(e ast.Expr, ty *typ) string { // the pattern component for one left-hand side
@@ -1441,11 +1684,11 @@ func (t *tr) assign(s *ast.AssignStmt) string {
 			return "_"
 		}
 		if s.Tok == token.DEFINE {
-			t.env[id.Name] = ty
+			t.declare(id.Name, ty)
 		} else if old, ok := t.env[id.Name]; !ok || !old.eq(ty) {
 			die("assignment %s: unknown variable or type mismatch", t.text(s))
 		}
-		return v(id.Name)
+		return t.v(id.Name)
 	}
 	letp := func(comps []string, c string) string {
 		p := pat(comps)
@@ -1478,7 +1721,7 @@ func (t *tr) assign(s *ast.AssignStmt) string {
 			if kty.kind != "string" || !vty.eq(mty.elem) {
 				die("assignment %s: type mismatch", t.text(s))
 			}
-			return "let " + v(id.Name) + " := (map_set " + v(id.Name) + " " + kc + " " + vc + ") in\n  "
+			return "let " + t.v(id.Name) + " := (map_set " + t.v(id.Name) + " " + kc + " " + vc + ") in\n  "
 		}
 		id, ok := s.Lhs[0].(*ast.Ident)
 		if !ok {
@@ -1506,13 +1749,30 @@ func (t *tr) assign(s *ast.AssignStmt) string {
 			}
 			switch ty.kind {
 			case "string":
-				return letp([]string{v(id.Name)}, "(String.append "+v(id.Name)+" "+c+")")
+				return letp([]string{t.v(id.Name)}, "(String.append "+t.v(id.Name)+" "+c+")")
 			case "int":
-				return letp([]string{v(id.Name)}, "(Z.add "+v(id.Name)+" "+c+")")
+				return letp([]string{t.v(id.Name)}, "(Z.add "+t.v(id.Name)+" "+c+")")
 			}
 		}
 		die("unsupported assignment %s", t.text(s))
 	case len(s.Rhs) == 1 && (s.Tok == token.DEFINE || s.Tok == token.ASSIGN):
+		if ta, ok := s.Rhs[0].(*ast.TypeAssertExpr); ok && len(s.Lhs) == 2 && ta.Type != nil { // x, ok := e.(T)
+			c, ty := t.expr(ta.X)
+			fn, rty := "", (*typ)(nil)
+			switch {
+			case t.isExitStatusInterface(ta.Type) && ty.kind == "dynerr":
+				fn, rty = "dyn_as_exitStatus", &typ{kind: "exitStatuser"}
+			case t.isExitStatusInterface(ta.Type) && ty.kind == "sysval":
+				fn, rty = "sys_as_exitStatus", &typ{kind: "exitStatuser"}
+			case t.isExecExitError(ta.Type) && ty.kind == "dynerr":
+				fn, rty = "dyn_as_ExitError", &typ{kind: "exitError"}
+			default:
+				die("unsupported type assertion %s (only to interface{ ExitStatus() int } and *exec.ExitError, on an error of a function translated with !dyn)", t.text(ta))
+			}
+			a := bind(s.Lhs[0], rty)
+			b := bind(s.Lhs[1], tBool)
+			return letp([]string{a, b}, "("+fn+" "+c+")")
+		}
 		if ix, ok := s.Rhs[0].(*ast.IndexExpr); ok && len(s.Lhs) == 2 { // v, ok := m[k]
 			mc, mty := t.expr(ix.X)
 			kc, kty := t.expr(ix.Index)
@@ -1575,6 +1835,26 @@ func (t *tr) load(path string) {
 		}
 		t.imports[name] = p
 	}
+	t.consts = map[string]string{}
+	t.constTy = map[string]*typ{}
+	for _, d := range f.Decls {
+		if gd, ok := d.(*ast.GenDecl); ok && gd.Tok == token.CONST {
+			for _, sp := range gd.Specs {
+				vs := sp.(*ast.ValueSpec)
+				for i, n := range vs.Names {
+					if i >= len(vs.Values) || vs.Type != nil {
+						continue
+					}
+					if lit, ok := vs.Values[i].(*ast.BasicLit); ok && lit.Kind == token.STRING {
+						if s, err := strconv.Unquote(lit.Value); err == nil {
+							t.consts[n.Name] = coqString(s)
+							t.constTy[n.Name] = tString
+						}
+					}
+				}
+			}
+		}
+	}
 	t.structs = map[string]*ast.StructType{}
 	t.named = map[string]ast.Expr{}
 	t.funcs = map[string]*ast.FuncDecl{}
@@ -1606,8 +1886,59 @@ func (t *tr) load(path string) {
 
 // a method of a named slice type (Functions.Less) is looked up under the slice type's name; its receiver
 // is then simply a list
+func (t *tr) declareOpaque(spec string) {
+	name := spec
+	sig := ""
+	if i := strings.Index(spec, "="); i >= 0 {
+		name, sig = spec[:i], spec[i+1:]
+	}
+	basic := func(s string) *typ {
+		switch s {
+		case "string":
+			return tString
+		case "int":
+			return tInt
+		case "bool":
+			return tBool
+		case "error":
+			return tError
+		case "[]string":
+			return tList(tString)
+		}
+		die("unsupported type %s in the signature of %s", s, name)
+		return nil
+	}
+	o := &opaqueFn{}
+	if sig == "" { // a function of the file: its declared signature
+		fd, ok := t.funcs[name]
+		if !ok || fd.Recv != nil {
+			die("function %s not found", name)
+		}
+		o.params, o.result = t.signature(fd)
+	} else {
+		io := strings.SplitN(sig, ">", 2)
+		if len(io) != 2 {
+			die("signature of %s: want T1:T2>R1:R2", name)
+		}
+		if io[0] != "" {
+			for _, s := range strings.Split(io[0], ":") {
+				o.params = append(o.params, basic(s))
+			}
+		}
+		var res []*typ
+		for _, s := range strings.Split(io[1], ":") {
+			res = append(res, basic(s))
+		}
+		o.result = res[0]
+		if len(res) > 1 {
+			o.result = &typ{kind: "tuple", elems: res}
+		}
+	}
+	t.opaque[name] = o
+}
+
 func fnMode() {
-	t := &tr{prefix: os.Args[4], used: map[string]map[string]bool{}, done: map[string]string{}, busy: map[string]bool{}, implicit: map[string]map[string]string{}, forced: map[string][]string{}}
+	t := &tr{prefix: os.Args[4], used: map[string]map[string]bool{}, done: map[string]string{}, busy: map[string]bool{}, implicit: map[string]map[string]string{}, forced: map[string][]string{}, foreign: map[string]bool{}, dyn: map[string]bool{}, globals: map[string]bool{}, opaque: map[string]*opaqueFn{}}
 	t.load(os.Args[2])
 	for _, key := range strings.Split(os.Args[3], ",") {
 		if strings.HasPrefix(key, "+") { // +Type.Field: keep this field in the Record even if no translated function reads it
@@ -1623,11 +1954,36 @@ func fnMode() {
 		if parts := strings.Split(key, "!"); len(parts) > 1 {
 			key = parts[0]
 			for _, n := range parts[1:] {
-				if _, ok := forcedTypes[n]; !ok {
-					die("unknown ambient value %s", n)
+				switch {
+				case strings.HasPrefix(n, "%"): // %pkg.T=F1:F2: a struct of another package, its string fields
+					eq := strings.Index(n, "=")
+					if eq < 0 {
+						die("want %%pkg.T=F1:F2, got %s", n)
+					}
+					name := strings.Replace(n[1:eq], ".", "_", -1)
+					st := &ast.StructType{Fields: &ast.FieldList{}}
+					for _, f := range strings.Split(n[eq+1:], ":") {
+						st.Fields.List = append(st.Fields.List, &ast.Field{Names: []*ast.Ident{ast.NewIdent(f)}, Type: ast.NewIdent("string")})
+						if t.used[name] == nil {
+							t.used[name] = map[string]bool{}
+						}
+						t.used[name][f] = true
+					}
+					t.structs[name] = st
+					t.foreign[name] = true
+				case n == "dyn": // the function inspects errors by type assertion: error = class of the dynamic type
+					t.dyn[key] = true
+				case strings.HasPrefix(n, "$"): // a package-level string variable (of this or another file): a parameter
+					t.globals[n[1:]] = true
+				case strings.HasPrefix(n, "?"): // a function taken as a parameter: ?local or ?pkg.Func=T1:T2>R1:R2
+					t.declareOpaque(n[1:])
+				default:
+					if _, ok := forcedTypes[n]; !ok {
+						die("unknown ambient value %s", n)
+					}
+					t.forced[key] = append(t.forced[key], n)
 				}
 			}
-			t.forced[key] = parts[1:]
 		}
 		t.function(key)
 	}
